@@ -24,7 +24,7 @@ def render(components, arrows, rng):
     return "@startuml\n" + "\n".join(lines) + "\n@enduml"
 
 
-def make_case(rng, comps_pool=gen.PLAIN):
+def make_case(rng, comps_pool=gen.PLAIN, absent=None):
     base = "p"
     kids = rng.sample([c for c in comps_pool if c != base], rng.randint(2, 6))
     if rng.random() < 0.25:
@@ -55,8 +55,16 @@ def make_case(rng, comps_pool=gen.PLAIN):
     imps = [e for e in sorted(imps) if e[0] != e[1] and not e[1].startswith(e[0] + ".")]
     mode_only = rng.random() < 0.6
     qualified = rng.random() < 0.5
+    absent_comp = None
+    if absent or (absent is None and rng.random() < 0.08):
+        # the architecture lacks one component of the diagram (while other generated rules may well be violated): the
+        # diagram rule must end in a lookup error, whatever else it has found before
+        absent_comp = rng.choice(comps)
+        gone = f"{base}.{absent_comp}"
+        nodes = [n for n in nodes if not gen.is_desc(n, gone)]
+        imps = [e for e in imps if not gen.is_desc(e[0], gone) and not gen.is_desc(e[1], gone)]
     return {"nodes": nodes, "imps": imps, "base": base, "comps": comps, "arrows": arrows, "only": mode_only,
-            "qualified": qualified, "seed": rng.random()}
+            "qualified": qualified, "seed": rng.random(), "absent": absent_comp}
 
 
 def _texts(case):
@@ -148,7 +156,10 @@ def judge(ctx, stream, cases):
         if dom == "d" and mcls != s:
             raise InfraError(f"diagram model and specification disagree: {line_for(c)} -> {a}")
         bad = None
-        if dom == "d" and icls != s:
+        if c.get("absent") and m == "ERR:lookupError" and icls in ("PASS", "FAIL"):
+            bad = (f"the diagram names the component {c['base']}.{c['absent']} that is absent from the architecture, but the diagram rule gives the verdict "
+                   f"{icls} instead of a lookup error")
+        elif dom == "d" and icls != s:
             bad = f"DiagramRule verdict {icls} but conformance says {s}"
         elif iq != ib:
             bad = "with_base_module(p) behaves differently from writing every component as p.name"
@@ -181,3 +192,10 @@ def run(ctx: Ctx):
         judge(ctx, s, cases)
         s.finish()
     return RULE
+
+
+def absent_component_stream(ctx, stream, n):
+    """diagrams naming a component the architecture does not have, next to rules that are violated (C13)"""
+    rng = ctx.rng("absent-components")
+    cases = [make_case(rng, gen.PLAIN, absent=True) for _ in range(n)]
+    judge(ctx, stream, cases)
